@@ -342,6 +342,10 @@ def RSys.run (c : Codec α) : List RAct → RSys → List (Option (Poll (Except 
     let (os, s'') := RSys.run c as s'
     (o :: os, s'')
 
+/-- `AsyncReader::set_max_len`: sets the field, nothing else — not the state, not the buffer, which may hold part of a frame in flight
+    (that frame was admitted under the old limit and completes). -/
+def AReader.setMaxLen (r : AReader) (k : Nat) : AReader := ⟨{ r.core with maxLen := k }, r.src⟩
+
 /-! ## AsyncWriter -/
 
 /-- `async_writer::State` -/
